@@ -569,6 +569,14 @@ def job_stream(pid, ctx, n_random=None):
         for prop, what in job_oracles(c, ta):
             if prop in ("C04", "C07") and ("spawn of" in what or "panicked" in what or "job ended but" in what):
                 s.oracle_failures.append((len(scripts) + i, c, ta, f"[{prop}] {what}"))
+        # C07 "… and when spawning, signalling or killing fails": a failed kill / signal ends its control (error handler, flag raised), so
+        # after the long quiet tail only wait-for-end tickets may still be open
+        unres = [x for x in ta.rsplit("unres:", 1)[1].split(",") if x] if "unres:" in ta else []
+        sends = [o for o in c.split(" ")[2].split(";") if o[:2] in ("s:", "n:")]
+        for u in unres:
+            o = sends[int(u)] if int(u) < len(sends) else "?:?"
+            if o.split(":")[1] != "towait":
+                s.oracle_failures.append((len(scripts) + i, c, ta, f"[C07] ticket {u} of `{o}` never resolved although the script has gone quiet (kill / signal failures injected: a failed call ends its control)"))
     s.note = ("scripts of API calls / virtual-time gaps / settles / handle drops against the real start_job (simulated child through the public spawn hook, paused clock, "
               "tickets polled by hand with recording wakers) vs the model's set of admissible traces: fixed scripts for every past finding, bounded-exhaustive sequences over the "
               "14-call public alphabet x {burst, settled} x 3 child behaviours, 60 park-then-mixed-priority-burst scripts, then seeded random scripts")
